@@ -27,7 +27,9 @@ func body(s *simrt.Sim, tier string) {
 	cphID := 1 + s.Choose(2, "cipher")
 	cipher := []enc.Cipher{enc.CipherAESGCM, enc.CipherChaCha20Poly1305}[cphID-1]
 	alg := enccommon.Algorithms[s.Choose(len(enccommon.Algorithms), "alg")]
-	keyName := []string{"mykey", "vault/key/1", "k"}[s.Choose(3, "keyname")]
+	// (key names are arbitrary valid strings: control characters, DEL, line separators, quotes, non-ASCII and
+	// non-printable runes all have to survive the manifest's JSON encoding)
+	keyName := []string{"mykey", "vault/key/1", "k", "key\x1f1", "del\x7f", "nul\x00x", "ls\u2028ps\u2029", "tag\U000e0001", "q\"b\\s/\t\n", "é-ключ-鍵-🔑", "<html>&amp;"}[s.Choose(11, "keyname")]
 	desc := fmt.Sprintf("plaintext %d bytes, cipher %s, algorithm %s, key %q", len(pt), cipher, alg.Name, keyName)
 
 	if s.Choose(3, "direction") != 0 {
